@@ -108,8 +108,12 @@ CFG = dict(
              "histories checkWitness (wfHist) enforces it",
              "the HTTP layer is not MODELLED but EXERCISED: the real edit server (generator.App.Run edit) is driven in-process — parameter-value and "
              "producer-value endpoints sequentially against the atomic spec (c13.http.seq) and concurrently (deterministic schedules with a "
-             "harness artifact whose Write blocks mid-download, random histories) through the verified linearizability check; other endpoints "
-             "(/node, /graph, /zip, websocket messages, autosave) are not driven",
+             "harness artifact whose Write blocks mid-download; S5: a download held inside Process() under the lock, two POSTs to one parameter "
+             "queued around its release, then a re-send and reads; S6: failing and abandoned downloads plus overlapping downloads of a "
+             "multi-row body that must be exactly one snapshot; repeated-value and random histories) through the verified linearizability "
+             "check; handler-local state of the HTTP layer is not modelled — it is what these schedules probe; other endpoints "
+             "(/node, /graph, /zip, websocket messages, autosave) are not driven. A fatal panic of the in-process server (e.g. net/http panicking "
+             "in its own deferred flush) kills the harness: the check then reports a crash record, not an oracle line",
              "graph edits (ConnectNodes, CreateNode, DeleteNode, SetNodeAsProducer, ApplyAppSchema) concurrent with the three calls are outside the "
              "property and the model: they mutate i.producers / i.nodeIDs without producerLock; the whitelisted pre-lock producers lookup is "
              "sound only because none of the three entry points writes that map",
@@ -149,8 +153,9 @@ CFG = dict(
              "values, yielding processors) are linearized by an untrusted search whose witness the verified checker validates; the same stream "
              "under the race detector; results held by clients (ParameterData bytes, artifact bytes of parameter.File + basics.BinaryNode) are "
              "re-digested after later completed updates (results_immutable); the REAL edit server's parameter/producer endpoints are driven "
-             "sequentially (c13.http.seq) and with deterministic blocked-Write schedules and random concurrent HTTP histories through the same "
-             "verified linearizability check.",
+             "sequentially (c13.http.seq) and with deterministic schedules (download blocked in Write; download held in Process() under the lock with "
+             "two updates queued and a re-send; failing / abandoned downloads with overlapping multi-row downloads checked as snapshots) and "
+             "random concurrent HTTP histories through the same verified linearizability check.",
         note="Trusted: Lean kernel + 3 axioms; the syntactic lock-fact extractor (self-tested on 18 seeded variants of instance.go); harness; "
              "Go's sync.Mutex; the race detector. Runtime residue: data-race freedom is the race detector's verdict on the runs made, not a "
              "theorem. That the Go functions are clients of the fine-grained model (all shared-state accesses between Lock and Unlock; their "
